@@ -98,10 +98,17 @@ struct WScript {
 }
 
 fn writer_body(ch: &Chooser, scripts: &[WScript], pools: &[usize], ends: &[WEnd], faults: bool, cost: CostModel) -> Outcome {
+    writer_body_with(ch, scripts, pools, ends, faults, cost, &[])
+}
+
+fn writer_body_with(ch: &Chooser, scripts: &[WScript], pools: &[usize], ends: &[WEnd], faults: bool, cost: CostModel, short_modes: &[SinkMode]) -> Outcome {
     let script = ch.pick_free("script", scripts);
     let pool = *ch.pick_free("pool", pools);
     let end = *ch.pick_free("end", ends);
-    let sink = if faults {
+    let sink = if !short_modes.is_empty() {
+        // sinks that accept only part of each buffer or answer Interrupted: output must be identical
+        FaultSink::new(ch.pick_free("sink", short_modes).clone(), None)
+    } else if faults {
         FaultSink::new(SinkMode::ChooseFail, Some(ch.clone()))
     } else {
         FaultSink::plain()
@@ -693,6 +700,10 @@ fn main() {
         // W3: keep calling finish() after an error was already returned (D6 family)
         ctx.harness(Config::new("writer_finish_after_error", ctx.by_tier(1, 2)), |ch| {
             writer_body(ch, &scripts_q[..2], &pools[..2], &[WEnd::FinishAfterError], true, CostModel::Preempt)
+        });
+        // W4: short-write / Interrupted sinks (C14's short-write clause for the multithreaded writer)
+        ctx.harness(Config::new("writer_short_sinks", ctx.by_tier(1, 2)), |ch| {
+            writer_body_with(ch, &scripts_q[..3], &pools[..2], &[WEnd::Finish, WEnd::Drop], false, CostModel::Preempt, &[SinkMode::OneByte, SinkMode::Half, SinkMode::Alternating])
         });
         if ctx.thorough() {
             let scripts_t = vec![
